@@ -1,3 +1,4 @@
+import Gengo.Model.Loader
 namespace Gengo.Locate
 /-!
 ### C13 `sourceDir_correct`, `locate_correct`
@@ -8,18 +9,6 @@ cleaning is the identity on them).  `SourceDir` (package.go:246-267):
 `""` without a module.  `LocateInPackage` (load.go:149-159): `range u.pkgs` — a Go map — and the
 first package whose `SourceDir()` equals the file's directory.
 -/
-abbrev Seg := List Char
-abbrev Path := List Seg
-
-structure P where
-  pkgPath : Path
-  mod : Option (Path × Path)      -- module path, module dir
-
-def sourceDir (p : P) : Option Path :=
-  match p.mod with
-  | none => none                                   -- `""`: never equal to a `filepath.Dir` result
-  | some (mp, md) => if p.pkgPath = mp then some md else some (md ++ p.pkgPath.drop mp.length)
-
 theorem sourceDir_correct (mp md rel : Path) :
     sourceDir { pkgPath := mp ++ rel, mod := some (mp, md) } = some (md ++ rel) := by
   unfold sourceDir
@@ -34,9 +23,6 @@ theorem sourceDir_correct (mp md rel : Path) :
 
 theorem sourceDir_root (mp md : Path) : sourceDir { pkgPath := mp, mod := some (mp, md) } = some md := by
   simpa using sourceDir_correct mp md []
-
-/-- `LocateInPackage` over the universe in whatever order the map is ranged -/
-def locate (pkgs : List P) (dir : Path) : Option P := pkgs.find? fun p => sourceDir p == some dir
 
 /-- **`locate_correct`**: when the module packages of the universe lie in pairwise distinct
     directories, the package found for a file in `p`'s directory is `p` — for every iteration
